@@ -58,6 +58,10 @@ pub const KEYS: &[(&str, &str)] = &[
         "multi-bit-condition-tests-bit-0",
         "the condition of if / ternary / switch and the operands of && / || are synthesized with `synthesize_expr(cond, 1)[0]`: for a condition wider than one bit only bit 0 is tested (IEEE 1800: true when non-zero)",
     ),
+    (
+        "fill-literal-ones-not-filled",
+        "the fill literal `'1` (all ones at the context width) is synthesized as the 1-bit value 1 zero-extended: `a + '1` becomes a + 1 (try_constant yields 1, build_constant pads with zeros)",
+    ),
 ];
 
 /// Mirror of how the synthesizer hands widths down (`synthesize_expr(e, w)`):
@@ -199,6 +203,11 @@ fn expr_hits(design: &Design, m: &Module, e: &Expr, dest_w: u32, out: &mut BTree
             }
         }
         match n.e {
+            Expr::Lit(Lit::AllOne) => {
+                if n.ctx.w > 1 {
+                    out.insert("fill-literal-ones-not-filled");
+                }
+            }
             Expr::Cast(..) => {
                 if (n.in_ctx || n.root) && t.w < n.ctx.w {
                     out.insert("width-cast-ignored");
